@@ -26,11 +26,13 @@ stream, and the driver checks it for the Lean parser with `checkOracle` (proved 
   it is a property of the stream text and of the parser.  They are therefore named `…_partial`:
   `framing_split_independent_partial`, `framing_delivers_exactly_partial`,
   `framing_bytes_split_independent_stateful_partial`, `framing_bytes_split_independent_partial`
+  `reconnect_framing_split_independent_partial`
   (also partial for other reasons: `utf8_perchunk_eq_iff_boundaries_partial`, `leanParser_complete_at_boundary_partial`).
   Missing: valid streams that do NOT satisfy `PrefixOracle` — white space in front of the header (white space after
   the closing tag IS covered since repo commit 109544b, see `afterCloseText` below; before, the property was false
   there: finding `C03:bytes-after-stream-close`); and `PrefixOracle` for `QDomDocument` is measured on the corpus, not
-  proved.  Unconditional: `utf8_stateful_chunk_indep`, the `matchOpen…` theorems.
+  proved.  Unconditional: `utf8_stateful_chunk_indep`, the `matchOpen…` theorems,
+  `connection_events_depend_only_on_own_bytes`.
 
 Keep-alive notifications (`stanzaReceived` with a null element, emitted when the buffer holds only white
 space) legitimately depend on the split — "  " in one read is one notification, in two reads two — and are not
@@ -135,6 +137,27 @@ theorem framing_bytes_split_independent_partial (P : Parser E) (items : List (It
     events (runBytes (feedBytesCode P) chunks) = events (runBytes (feedBytesCode P) [chunks.flatten])
     ∧ events (runBytes (feedBytesCode P) chunks) = events (evsOf items) :=
   framing_bytes_split_independent_stateful_partial P items hP chunks cps hvalid htext
+
+/-! ### Several connections on one socket object -/
+
+/-- **The events of a connection depend only on the bytes of that connection.**  Whatever happened to the socket
+object before — any number of earlier connections, each cut at ANY point (inside a tag, an entity, the header, a
+multi-byte character: `pre` is an arbitrary history of reads), ended by the peer, by the network or locally — once
+the socket is connected again, feeding `chunks` yields exactly the events of feeding `chunks` to a fresh object.
+(True because `connect` resets the receive buffer, the cached header and the decoder; the harness compares every
+`connect` line and every following read with the real `XmppSocket` reconnected over loopback.) -/
+theorem connection_events_depend_only_on_own_bytes (P : Parser E) (pre : List Op) (chunks : List Bytes) :
+    (runOps P (runOps P binit pre).1 (Op.connect :: chunks.map Op.feed)).2 = runBytes (feedBytesCode P) chunks := by
+  simp only [runOps, runWith, stepOp, List.nil_append, runWith_map_feed, runBytes]
+
+/-- … hence split independence of connection n holds for every history of connections 1 … n-1 (partial: under
+`PrefixOracle`, like `framing_bytes_split_independent_partial`). -/
+theorem reconnect_framing_split_independent_partial (P : Parser E) (items : List (Item E))
+    (hP : PrefixOracle P items) (pre : List Op) (chunks : List Bytes) (cps : List Nat)
+    (hvalid : decode? chunks.flatten = some cps) (htext : toChars (dropBom1 cps) = textOf items) :
+    events (runOps P (runOps P binit pre).1 (Op.connect :: chunks.map Op.feed)).2 = events (evsOf items) := by
+  rw [connection_events_depend_only_on_own_bytes]
+  exact (framing_bytes_split_independent_partial P items hP chunks cps hvalid htext).2
 
 /-! ### Bytes after the closing tag (defect until repo commit 109544b, now part of the covered language) -/
 
@@ -266,6 +289,15 @@ example : events (runBytes (feedBytesPerChunk toyP) defectChunks)
       = [.streamOpen "stream".toList, .stanza "m:\uFFFD\uFFFD".toList]
     ∧ events (runBytes (feedBytesPerChunk toyP) zwnbspChunks)
       = [.streamOpen "stream".toList, .stanza "m:x".toList] := by
+  decide +kernel
+
+/-- non-vacuity: connection 1 is lost inside `<m>` C3 (tag open, half a character pending); connection 2 still
+delivers its stream.  Without the reset at `connect` the left-over would be prepended (second line: nothing delivered). -/
+example : events (runOps toyP binit
+      ([Op.connect, Op.feed (defectChunks.headD []), Op.peerLost, Op.connect] ++ defectChunks.map Op.feed)).2
+      = [.streamOpen "stream".toList, .stanza "m:ñ".toList]
+    ∧ events (runOps toyP binit
+      ([Op.connect, Op.feed (defectChunks.headD []), Op.peerLost] ++ defectChunks.map Op.feed)).2 = [] := by
   decide +kernel
 
 /-! ### Non-vacuity: `PrefixOracle` is satisfiable, and the hypotheses of the byte-level theorem are met -/
